@@ -274,6 +274,10 @@ fn pools(c13: bool) -> Vec<(Vec<&'static str>, Vec<&'static str>)> {
         (vec!["string", "String", "option", "vec", "Vec", "Option"], vec!["n", "m"]),
         (vec!["serialize", "deserialize", "debug", "result", "ok", "err", "some", "none", "box", "default"], vec!["str", "u8x", "bool"]),
         (vec!["PqRs", "A", "Pq", "RsA", "PqRsA"], vec!["k2"]),
+        // a name that has to be numbered next to an element that already carries that number
+        (vec!["option", "option1", "Option", "option2", "Option1"], vec!["k", "v"]),
+        (vec!["vec", "Vec1", "vec1", "string", "String1", "self", "Self1"], vec!["n"]),
+        (vec!["row", "value", "Value", "RowValue1", "row_value", "RowValue"], vec!["id"]),
     ];
     if !c13 {
         v.push((vec!["p:a", "q:b", "c", "p:d"], vec!["xmlns:p", "p:id", "id2", "xmlns:q", "q:k", "xmlns"]));
